@@ -14,6 +14,7 @@
 #include <string>
 #include <thread>
 #include <vector>
+#include <dzn/pump.hh>
 
 namespace verif
 {
@@ -42,11 +43,16 @@ namespace verif
     int shell_waiting = 0;                     // callers blocked in dzn::shell whose closure has not completed
     int parked = 0;                            // threads parked at a yield point
     bool yielding = false;                     // yield points active (C11 schedules)
+    std::vector<std::string> yield_at;         // label prefixes at which threads park (empty: every yield point)
+    // well-behaved arbiter: "port" -> {claim event, release event, grant value, deny value, claimed}
+    struct arbiter_t { std::string claim, release; int grant, deny; bool claimed; };
+    std::map<std::string, arbiter_t> arbiter;
     std::map<std::string, std::string> at;     // thread name -> label of the yield point it is parked at
     std::set<std::string> go;                  // thread names granted to continue
     std::map<std::string, std::string> results;// finished calls: thread name -> JSON
   };
   inline state& S() { static state s; return s; }
+  using hscope = dzn::verif::hscope;
   inline thread_local std::string tname = "main";
 
   inline std::string ctx_name()
@@ -57,19 +63,28 @@ namespace verif
   }
   inline int reply_for(const std::string& port, const std::string& event)
   {
+    hscope hs_;
     state& s = S();
     std::unique_lock<std::mutex> lock(s.m);
+    auto ar = s.arbiter.find(port);
+    if (ar != s.arbiter.end())
+    {
+      if (event == ar->second.claim) { if (ar->second.claimed) return ar->second.deny; ar->second.claimed = true; return ar->second.grant; }
+      if (event == ar->second.release) { ar->second.claimed = false; return 0; }
+    }
     auto it = s.script.find(port + "." + event);
     return it == s.script.end() ? 0 : it->second;
   }
   inline int next_out()
   {
+    hscope hs_;
     state& s = S();
     std::unique_lock<std::mutex> lock(s.m);
     return 900 + (++s.out_counter);
   }
   inline void record(const entry& e)
   {
+    hscope hs_;
     state& s = S();
     std::unique_lock<std::mutex> lock(s.m);
     s.log.push_back(e);
@@ -77,9 +92,16 @@ namespace verif
   // a yield point: the calling thread announces where it is and waits for the scheduler's grant
   inline void yield_point(const std::string& label)
   {
+    hscope hs_;
     state& s = S();
     std::unique_lock<std::mutex> lock(s.m);
     if (!s.yielding || tname == "main") return;
+    if (!s.yield_at.empty())
+    {
+      bool hit = false;
+      for (auto& pre : s.yield_at) if (label.compare(0, pre.size(), pre) == 0) hit = true;
+      if (!hit) return;
+    }
     std::string me = ctx_name() == "disp" ? "disp" : tname;
     s.at[me] = label;
     ++s.parked;
